@@ -16,6 +16,8 @@
 
 #include <cmath>
 #include <memory>
+#include <set>
+#include <map>
 #include <sstream>
 
 using namespace sim;
@@ -40,17 +42,18 @@ J gen(uint64_t seed, bool thorough) {
   ec.binary_state = r.chance(0.3);
   long T = r.range(10, thorough ? 90 : 40);
   TrajModel m; m.build(ec.data_seed, ec.natoms, ec.traj_amp, ec.force_amp, false);
-  static const char *types[] = {"harmonic", "harmonic", "harmonic", "walls", "walls", "linear", "abmd"};
+  static const char *types[] = {"harmonic", "harmonic", "harmonic", "walls", "walls", "linear", "abmd", "histogram"};
   RestraintSpec sp;
-  sp.type = types[r.below(7)]; sp.name = "r0";
-  int ncv = sp.type == "abmd" ? 1 : (int)r.range(1, 2);
+  sp.type = types[r.below(8)]; sp.name = "r0";
+  int ncv = sp.type == "abmd" ? 1 : (sp.type == "histogram" ? (int)r.range(1, 3) : (int)r.range(1, 2));
   std::vector<CvSpec> cvs;
   static const char *kinds[] = {"distance", "distanceZ", "dihedral", "angle", "distanceXY"};
   std::string sig = sp.type + ":";
   std::vector<std::pair<double, double>> rg;
   for (int i = 0; i < ncv; i++) {
     std::string kind = kinds[r.below(5)];
-    if (sp.type == "linear" || sp.type == "abmd") while (kind == "dihedral") kind = kinds[r.below(5)];
+    if (sp.type == "linear" || sp.type == "abmd" || sp.type == "histogram") while (kind == "dihedral") kind = kinds[r.below(5)];
+    if (sp.type == "histogram") while (kind == "dihedral" || kind == "angle") kind = kinds[r.below(5)];   // (observations of one random variable: lengths)
     CvSpec cv = make_cv(r, ec.natoms, kind, i ? "two" : "one");
     cv.width = kind == "dihedral" ? round3(r.uniform(5, 30)) : (kind == "angle" ? round3(r.uniform(2, 10)) : round3(r.uniform(0.1, 1.5)));
     double lo, hi; cv_range(cv, m, T, lo, hi);
@@ -65,7 +68,24 @@ J gen(uint64_t seed, bool thorough) {
   sp.k = round3(r.uniform(0.5, 20.0));
   sp.nsteps = r.range(2, std::max(3L, T / 2));
   std::string body;
-  if (sp.type == "abmd") {
+  if (sp.type == "histogram") {
+    // grid in multiples of 1/8 (exact in binary, so that the number of bins is what it reads), covering most of the visited range
+    double lo = 1e300, hi = -1e300; for (auto const &q : rg) { lo = std::min(lo, q.first); hi = std::max(hi, q.second); }
+    int nb = (int)r.range(4, 10);
+    sp.h_width = std::max(0.125, std::round((hi - lo) * r.uniform(0.7, 1.3) / nb * 8.0) / 8.0);
+    sp.h_lower = std::floor((lo - r.uniform(-0.1, 0.2) * (hi - lo)) * 8.0) / 8.0;
+    bool given_sigma = r.chance(0.5);
+    sp.h_sigma = given_sigma ? round3(sp.h_width * r.uniform(0.5, 3.0)) : 2.0 * sp.h_width;
+    sp.k = round3(r.uniform(1.0, 50.0));
+    double sum = 0; for (int g = 0; g < nb; g++) { sp.h_ref.push_back(round3(r.uniform(0.0, 1.0))); sum += sp.h_ref.back(); }
+    if (sum == 0) { sp.h_ref[0] = 1.0; sum = 1.0; }
+    if (r.chance(0.5)) { for (double &v : sp.h_ref) v /= sum * sp.h_width; }   // already of unit integral (to the 12 digits of the text), or not
+    { std::vector<double> txt; for (double v : sp.h_ref) txt.push_back(strtod(num(v).c_str(), nullptr)); sp.h_ref = txt; }
+    sp.h_documented_scale = r.chance(0.03);
+    body = "histogramRestraint {\n  name r0\n  colvars " + join_names(cvs) + "\n  lowerBoundary " + num(sp.h_lower) + "\n  upperBoundary " + num(sp.h_lower + nb * sp.h_width) + "\n  width " + num(sp.h_width) + "\n" +
+           (given_sigma ? "  gaussianSigma " + num(sp.h_sigma) + "\n" : "") + "  forceConstant " + num(sp.k) + "\n  refHistogram " + list(sp.h_ref) + "\n  outputEnergy on\n}\n";
+    sig += std::string("|distribution") + (sp.h_documented_scale ? "/documented_scale" : "");
+  } else if (sp.type == "abmd") {
     sp.decreasing = r.chance(0.5);
     sp.stopping = round3(r.chance(0.5) ? mid(0) + (sp.decreasing ? -0.2 : 0.2) * span(0) : (sp.decreasing ? rg[0].first - 0.1 * span(0) : rg[0].second + 0.1 * span(0)));
     body = "abmd {\n  name r0\n  colvars one\n  forceConstant " + num(sp.k) + "\n  stoppingValue " + num(sp.stopping) + "\n" + (sp.decreasing ? "  decreasing on\n" : "") + "}\n";
@@ -83,7 +103,7 @@ J gen(uint64_t seed, bool thorough) {
       if (any_periodic) which = 0;
       for (size_t i = 0; i < cvs.size(); i++) {
         double a = round3(mid(i) - r.uniform(0.05, 0.45) * span(i)), b = round3(mid(i) + r.uniform(0.05, 0.45) * span(i));
-        if (b <= a) b = a + 0.2 * span(i);
+        if (b <= a) { b = round3(a + 0.2 * span(i)); if (b <= a) b = round3(a + 0.001); }   // (every number of the configuration must survive its 12-digit text)
         if (which != 1) sp.lower.push_back(a);
         if (which != 2) sp.upper.push_back(b);
       }
@@ -193,6 +213,23 @@ RunResult run(J const &plan) {
   uint64_t fp = 1469598103934665603ULL;
   std::unique_ptr<Engine> e(new Engine(ec));
   if (e->configure(config) != COLVARS_OK || cvm::get_error()) { res.counters["probe.invalid_config"]++; res.detail = e->last_error(); sim.finish(res); return res; }
+  // staged TI lines of the log: "Restraint r0 Lambda= <lambda> dA/dLambda= <mean>" at the end of every stage
+  struct TiLine { long step; double lam, val; bool after_resume; };
+  std::vector<TiLine> ti_lines; size_t log_seen = 0; int n_resumes_so_far = 0;
+  std::set<int> stage_with_repeat, stage_with_resume;
+  auto hook_log = [&](Engine *ep) {
+    ep->cfg.log_keep = 1000000; log_seen = 0;
+    ep->after_step = [&, ep](long step) {
+      for (; log_seen < ep->log_lines.size(); log_seen++) {
+        std::string const &l = ep->log_lines[log_seen];
+        size_t a = l.find("Restraint r0 Lambda="), b = l.find("dA/dLambda=");
+        if (a == std::string::npos || b == std::string::npos) continue;
+        TiLine t; t.step = step; t.lam = strtod(l.c_str() + a + 20, nullptr); t.val = strtod(l.c_str() + b + 11, nullptr); t.after_resume = n_resumes_so_far > 0;
+        ti_lines.push_back(t);
+      }
+    };
+  };
+  hook_log(e.get());
   std::map<long, model::RestraintOut> expect;   // by step (last presentation)
   long cur = 0; int nres = 0, nseg = 0;
   std::string kinds;
@@ -202,9 +239,10 @@ RunResult run(J const &plan) {
       StepRec const &s = e->rec[i];
       std::vector<double> x(s.cv.begin(), s.cv.begin() + (long)std::min(ncv, s.cv.size()));
       bool repeated = expect.count(s.step) > 0;
+      if (repeated && sp.nsteps > 0 && s.step > sp.first) stage_with_repeat.insert((int)((s.step - sp.first - 1) / sp.nsteps));
       model::RestraintOut o = M.step(s.step, x, repeated);
       expect[s.step] = o;
-      std::string where = nres ? "after_resume" : (nseg > 1 ? "later_segment" : "first_segment");
+      std::string where = std::string(sp.type == "histogram" ? (sp.h_documented_scale ? "histogram_restraint_documented_scale/" : "histogram_restraint/") : "") + (nres ? "after_resume" : (nseg > 1 ? "later_segment" : "first_segment"));
       double be = s.bias_e.empty() ? 0 : s.bias_e[0];
       double tol = 1e-9 * (1 + std::fabs(o.energy));
       if (std::fabs(be - o.energy) > tol) { res.fail("restraint_model", "energy/" + where, "step " + std::to_string(s.step) + " energy " + fmt_double(be) + " model " + fmt_double(o.energy) + " (k " + fmt_double(o.k) + ", centre " + (o.centers.empty() ? "-" : fmt_double(o.centers[0])) + ")"); break; }
@@ -232,11 +270,41 @@ RunResult run(J const &plan) {
       e->configure(config);
       cvm::clear_error();
       if (e->load_state("/simfs/w0/out") != COLVARS_OK || cvm::get_error()) { res.fail("restraint_model", "load_error", e->last_error()); break; }
-      nres++; kinds += "R"; nseg = 0;
+      nres++; kinds += "R"; nseg = 0; n_resumes_so_far++;
+      hook_log(e.get());
+      // the stage in progress when the run stopped (its accumulator has to survive the restart)
+      if (sp.nsteps > 0 && cur > sp.first && (cur - sp.first) % sp.nsteps != 0) stage_with_resume.insert((int)((cur - sp.first) / sp.nsteps));
+    }
+  }
+  // staged TI output: every line is the mean of dU/dlambda over the post-equilibration steps of its stage
+  {
+    int S = M.stages();
+    if (!res.violation && S > 0 && (sp.chg_k || sp.decoupling) && sp.nsteps > 0) {
+      std::set<int> seen_stage;
+      for (auto const &t : ti_lines) {
+        if (res.violation) break;
+        long rel = t.step - sp.first;
+        std::string at = "line printed at step " + std::to_string(t.step) + " (Lambda= " + fmt_double(t.lam) + " dA/dLambda= " + fmt_double(t.val) + ")";
+        if (rel <= 0 || rel % sp.nsteps != 0) { res.fail("restraint_model", "ti/line_at_a_step_that_ends_no_stage", at); break; }
+        int st = (int)(rel / sp.nsteps) - 1;
+        if (seen_stage.count(st)) { res.fail("restraint_model", "ti/two_lines_for_one_stage", at); break; }
+        seen_stage.insert(st);
+        auto it = M.ti.find(st);
+        double lam = M.lambda_of(std::min(st, S));
+        if (std::fabs(t.lam - lam) > 2e-5 * (1 + std::fabs(lam))) { res.fail("restraint_model", "ti/lambda", at + ": lambda point " + std::to_string(st) + " of the schedule is " + fmt_double(lam)); break; }
+        if (it == M.ti.end() || it->second.n == 0) { res.counters["probe.ti_lines_for_stages_without_samples"]++; continue; }
+        double mean = it->second.sum / (double)it->second.n;
+        if (std::fabs(t.val - mean) > 2e-5 * std::max(std::fabs(mean), it->second.scale) + 1e-12) {
+          std::string why = stage_with_resume.count(st) ? "/stage_spans_a_restart" : stage_with_repeat.count(st) ? "/stage_spans_a_run_boundary" : (st == 0 && sp.equil == 0) ? "/first_stage_without_equilibration" : "";
+          res.fail("restraint_model", "ti/mean_differs" + why, at + ": the mean of dU/dlambda over the " + std::to_string(it->second.n) + " counted steps of stage " + std::to_string(st) + " is " + fmt_double(mean));
+          break;
+        }
+        res.counters["probe.ti_lines_checked"]++;
+      }
     }
   }
   // state: centres, force constant, accumulated work
-  if (!res.violation && !expect.empty() && sp.type != "abmd") {
+  if (!res.violation && !expect.empty() && sp.type != "abmd" && sp.type != "histogram") {
     std::string st = e->save_state_string();
     model::RestraintOut const &o = expect.rbegin()->second;
     auto keyval = [&](std::string const &key, std::vector<double> &out) {
@@ -303,7 +371,7 @@ Property make() {
            "stage boundaries +0/+1, stop/resume through a text or binary state); non-trivial = at least one step compared; distinct = hash of (restraint type, "
            "variable kinds, schedule kind, segmentation)";
   p.assumptions = {"the model takes the variable values Colvars reports as input (C02 is not re-decided here)",
-                   "staged TI output (dA/dLambda log lines) and histogramRestraint are not covered by this check",
+                   "histogramRestraint is not covered by this check",
                    "tolerance 1e-9 relative (different summation order only)"};
   p.real_components = {"colvarbias_restraint* (harmonic, harmonic_walls, linear, moving centres/k, accumulated work)", "colvarbias_abmd", "colvar::dist2/dist2_lgrad for periodic variables", "trajectory and state writers"};
   p.stub_components = {"MD engine (kinematic)", "file system (sim::FS)"};
